@@ -77,12 +77,22 @@ pub fn first_terminator(x: &[u8]) -> Option<usize> {
 }
 
 /// Position of the first byte that ends the first *unit* of `x`: a ';' or a
-/// newline outside strings and blocks.
+/// newline outside strings and blocks.  A ';' that has nothing but white space and other
+/// ';' in front of it is passed over: whether such an *empty* unit (IEEE 488.2 7.3.1 lets the
+/// unit between two separators be missing) is a unit of its own or part of the way to the next
+/// one is left open by the properties, so an implementation may still say "incomplete" there.
 pub fn first_unit_end(x: &[u8]) -> Option<usize> {
     let mut l = Lex::Plain;
+    let mut nonempty = false;
     for (i, &b) in x.iter().enumerate() {
         if l == Lex::Plain && b == b';' {
-            return Some(i);
+            if nonempty {
+                return Some(i);
+            }
+            continue;
+        }
+        if !(b <= 9 || (11..=32).contains(&b)) {
+            nonempty = true;
         }
         if l.step(b) {
             return Some(i);
@@ -128,6 +138,9 @@ mod tests {
         assert_eq!(first_terminator(b"A #2+1x\n"), Some(7));
         assert_eq!(first_terminator(b"A #10\n"), Some(5));
         assert_eq!(first_unit_end(b"A ';';B"), Some(5));
+        assert_eq!(first_unit_end(b"; ;"), None);
+        assert_eq!(first_unit_end(b"; ;A;"), Some(4));
+        assert_eq!(first_unit_end(b" ;\n"), Some(2));
         assert_eq!(split(b"A\nB 'x\n'\nC").0.len(), 2);
     }
 }
